@@ -237,6 +237,7 @@ func extraFuncs(filename string, g *grammar.Grammar, cache *cache) template.Func
 	}
 	switch g.TargetLang {
 	case "go":
+		ret["has_values"] = c.hasValues
 		ret["pkg"] = c.goPackage
 		ret["node_id"] = cache.nodeID
 		ret["is_file_node"] = c.isFileNode
@@ -272,6 +273,21 @@ func (c *fileContext) goPackage(targetPkg string) string {
 		ret = path.Join(ret, targetPkg)
 	}
 	return `"` + ret + `".`
+}
+
+// hasValues reports whether the parsing stack of a Go parser has to carry values: some symbol
+// has a type, or a semantic action reads or writes a value ($$, $name) of a symbol without one
+// (such values are plain interface{}).
+func (c *fileContext) hasValues() bool {
+	if c.HasValues() {
+		return true
+	}
+	for _, act := range c.Parser.Actions {
+		if actionUsesValues(act.Code) {
+			return true
+		}
+	}
+	return false
 }
 
 func (c *fileContext) isFileNode(name string) bool {
